@@ -56,15 +56,20 @@ def run(chk, which="C16"):
             continue
         cexprs.append((f"gen{k}", f"au::make_constant({model.spell(t, 'unit', units)})", None))
     ratios = ratio_trees(rnd, tier)
+    # ratios inside the subnormal band of float / double that are not pure inverse integers (those convert by multiplying with
+    # one stored number, which is representable): two of them for every constant, in every run
+    subn = [("mdiv", ("int", 3), ("mpow", ("int", 2), 141)), ("mdiv", ("int", 5), ("mpow", ("int", 2), 1030)), ("mdiv", ("int", 7), ("mpow", ("int", 10), 40)),
+            ("mdiv", ("pi",), ("mpow", ("int", 10), 41)), ("mdiv", ("int", 3), ("mpow", ("int", 10), 310)), ("mdiv", ("mroot", ("int", 2), 2), ("mpow", ("int", 2), 140)),
+            ("mdiv", ("int", 9), ("mpow", ("int", 10), 46)), ("mdiv", ("int", 3), ("mpow", ("int", 10), 325))]
     cases = []
-    for cname, cexpr, hdr in cexprs:
-        sel = ratios if tier == "thorough" else rnd.sample(ratios, 9)
+    for ci, (cname, cexpr, hdr) in enumerate(cexprs):
+        sel = (ratios + subn) if tier == "thorough" else rnd.sample(ratios, 9) + [subn[(2 * ci) % len(subn)], subn[(2 * ci + 1) % len(subn)]]
         for rt in sel:
             m = model.mag_eval(rt)
             if any(abs(v.numerator) > 20000 or v.denominator > 12 for v in m.values()):
                 continue
-            if c11.exact_value(m) < c11.D(2) ** -126:
-                continue  # subnormal-float zone: only probed by the two fixed cases below (see known finding)
+            if c11.exact_value(m) < c11.D(2) ** -126 and model.mag_is_rational(m) and model.mag_to_fraction(m).numerator == 1:
+                continue  # inverse integers in the subnormal-float zone: only probed by the two fixed cases below (see known finding N6)
             # u = C's unit divided by the ratio  =>  unit_ratio(C, u) == ratio exactly
             uexpr = f"decltype(au::AssociatedUnitT<std::decay_t<decltype({cexpr})>>{{}} / {model.mag_spell(rt)})"
             cases.append({"c": cname, "cexpr": cexpr, "uexpr": uexpr, "ratio": m, "rt": rt})
@@ -178,6 +183,13 @@ def run(chk, which="C16"):
                             chk.violation(f"C16|can_store_value_in|{key}", msg=f"can_store_value_in<{T}> true for {expr[:250]} although the ratio exceeds the type's maximum")
                         if normal and not can:
                             chk.violation(f"C16|can_store_value_in|{key}", msg=f"can_store_value_in<{T}> false for {expr[:250]} although the ratio {float(exact_fr):.6g} is in range")
+                        # float/double are evaluated in long double, so their subnormal band is decided accurately: a ratio of at
+                        # least denorm_min is representable, one below half of it can only be stored as zero
+                        if T != "long double" and exact_fr is not None and not too_big:
+                            if Fraction(2) ** dmin <= exact_fr < Fraction(2) ** (dmin + dg - 1) and not can:
+                                chk.violation(f"C16|can_store_value_in|{key}", msg=f"can_store_value_in<{T}> false for {expr[:250]} although the ratio ~{exact:.4E} is a representable (subnormal) {T}")
+                            if exact_fr < Fraction(2) ** (dmin - 1) * (1 - band) and can:
+                                chk.violation(f"C16|can_store_value_in|{key}", msg=f"can_store_value_in<{T}> true for {expr[:250]} although the ratio ~{exact:.4E} is below half the smallest positive {T}")
                         if can and info["vals"] and not too_big:
                             npow = sum(abs(v.numerator) + v.denominator - 1 for v in m.values())
                             tol = (2 + npow // 1024) if T != "long double" else (16 + npow)
